@@ -12,7 +12,7 @@ from . import srf as base
 
 NAME = "fourier"
 PROPERTY = "C17"
-TIERS = {"quick": (5000, 70.0), "thorough": (150000, 1500.0)}
+TIERS = {"quick": (9000, 90.0), "thorough": (300000, 1800.0)}
 CHANGE_KINDS = base.CHANGE_KINDS
 OBSERVE_KINDS = {"gen"}
 RULE = ("one run = seeded history (3-14 ops) over one long-lived Fourier SRF (dim 1-3, per-axis "
